@@ -220,7 +220,17 @@ impl Context {
         b: Node,
         op: BinaryOpcode,
     ) -> Result<Node, BadNode> {
-        self.op_binary(a.min(b), a.max(b), op)
+        let (a, b) = (a.min(b), a.max(b));
+        // Keep a constant operand on the right: tapes only have a `RegImm`
+        // form for `min` / `max`, which are sensitive to operand order when
+        // both operands are zeros of opposite sign.
+        if matches!(self.get_op(a), Some(Op::Const(..)))
+            && !matches!(self.get_op(b), Some(Op::Const(..)))
+        {
+            self.op_binary(b, a, op)
+        } else {
+            self.op_binary(a, b, op)
+        }
     }
 
     /// Builds an addition node
